@@ -139,6 +139,7 @@ type Monitor struct {
 	pubSeen map[uint64]bool
 	cur     built
 	lastInv map[callKey]uint64
+	pubByReq map[callKey]uint64 // publication id reported for (publisher, request)
 
 	// statistics
 	NonHappyCloses int // calls closed by cancel/timeout/departure/routing error
@@ -151,7 +152,7 @@ type Monitor struct {
 
 // NewMonitor creates a monitor for the given realms.
 func NewMonitor(r Reporter, now func() time.Duration, realms ...RealmSpec) *Monitor {
-	m := &Monitor{R: r, Realms: map[string]*Realm{}, Sess: map[int]*Sess{}, Now: now, pubSeen: map[uint64]bool{}, lastInv: map[callKey]uint64{}}
+	m := &Monitor{R: r, Realms: map[string]*Realm{}, Sess: map[int]*Sess{}, Now: now, pubSeen: map[uint64]bool{}, lastInv: map[callKey]uint64{}, pubByReq: map[callKey]uint64{}}
 	for _, rs := range realms {
 		m.AddRealm(rs)
 	}
